@@ -31,6 +31,9 @@ type Store struct {
 	bundleDir string
 
 	// pushMutex serialises Push, whose query-then-insert/update sequence must not interleave with itself.
+	// It is also held for every other write transaction: all BundleItems share the Pending and Expires index
+	// entries, and badger aborts one of two overlapping read-write transactions touching the same entries with
+	// a "Transaction Conflict", even if they are about different bundles.
 	pushMutex sync.Mutex
 }
 
@@ -140,6 +143,9 @@ func (s *Store) Update(bi BundleItem) error {
 		"bundle": bi.Id,
 	}).Debug("Store updates BundleItem")
 
+	s.pushMutex.Lock()
+	defer s.pushMutex.Unlock()
+
 	return s.bh.Update(bi.Id, bi)
 }
 
@@ -152,7 +158,10 @@ func (s *Store) Delete(bid bpv7.BundleID) error {
 
 		// Remove the index entry first: a crash in between leaves orphaned part files, but never an entry
 		// whose parts are gone.
-		if err := s.bh.Delete(bi.Id, BundleItem{}); err != nil {
+		s.pushMutex.Lock()
+		err := s.bh.Delete(bi.Id, BundleItem{})
+		s.pushMutex.Unlock()
+		if err != nil {
 			return err
 		}
 
